@@ -894,6 +894,10 @@ class DBusObjectHandler :
                     errMsg = ('!!(Invalid error name "%s")!! ' % name) + errMsg
                     name = 'org.txdbus.InvalidErrorName'
 
+                # a DBus string can carry neither NUL nor unpaired surrogates
+                errMsg = errMsg.replace('\0', '\\0').encode(
+                    'utf-8', 'backslashreplace').decode('utf-8')
+
                 r = message.ErrorMessage(name, msg.serial,
                                          body=[errMsg],
                                          signature='s',
